@@ -38,6 +38,21 @@ func enumerate(maxLen int, f func(s string)) {
 	for l := 0; l <= maxLen; l++ {
 		rec(make([]byte, 0, maxLen), l)
 	}
+	// tilde prefixes: "~" + w + "/" + w' for every w, w' of length <= 2 (the slash is not in the
+	// alphabet, but it is what delimits the part ExceptTilde may leave to the shell)
+	var short []string
+	short = append(short, "")
+	for _, a := range alphabet {
+		short = append(short, string([]byte{a}))
+		for _, b := range alphabet {
+			short = append(short, string([]byte{a, b}))
+		}
+	}
+	for _, w := range short {
+		for _, w2 := range short {
+			f("~" + w + "/" + w2)
+		}
+	}
 	for b := 1; b < 256; b++ {
 		f(string([]byte{byte(b)}))
 		f("~/" + string([]byte{byte(b)}))
